@@ -134,6 +134,9 @@ def gen_mutants(base, per_file, seed, only):
     return muts
 
 
+TIER = "quick"
+
+
 def worker(k, q, out_path, lock, base):
     wd = f"/tmp/mut/w{k}"
     repo = f"{wd}/repo"
@@ -178,13 +181,14 @@ def worker(k, q, out_path, lock, base):
                 else:
                     caught, detail = [], {}
                     for c in m["checks"]:
-                        rc, o = sh(f"{wd}/target/release/trv {c} quick", cwd=f"{wd}/verif", env=env, timeout=1200)
+                        rc, o = sh(f"{wd}/target/release/trv {c} {TIER}", cwd=f"{wd}/verif", env=env, timeout=1200 if TIER == "quick" else 6000)
                         lines_o = [l[:300] for l in o.splitlines() if l.startswith(("VIOLATION", "INCONCLUSIVE", c + ":"))]
                         detail[c] = {"exit": rc, "line": lines_o[:1]}
                         if rc == 1:
                             caught.append(c)
                             break
                     res["status"] = "caught" if caught else "missed"
+                    res["tier"] = TIER
                     res["caught_by"] = caught
                     res["detail"] = detail
         res["wall_s"] = round(time.time() - t0, 1)
@@ -208,6 +212,8 @@ def main():
     seed = opt("--seed", "1")
     only = opt("--only", "")
     redo = set(x for x in opt("--redo", "").split(",") if x)
+    global TIER
+    TIER = opt("--tier", "quick")
     out = opt("--out", "/verif/mutation/results.jsonl")
     base = "/tmp/mut/base"
     head = subprocess.run("git -C /repo rev-parse HEAD", shell=True, capture_output=True, text=True).stdout.strip()
